@@ -13,7 +13,10 @@ LEVEL = 'proof'
 TRUSTED = [
     'translate/c17.py: Python ast -> Gallina for the statements it recognises (limit comparisons and badness terms, inmask / '
     'sticky products, grow loop bounds and clamps, qdone, skymask flag names / cast / tests / width / smooth arguments / test / '
-    'final product, const rules of djs_maskinterp1); fail-closed, `recognised` recorded per generated file',
+    'final product, const rules of djs_maskinterp1; round 5: the decisions of aesthetics() -- bad-pixel test, all-bad shortcut, masks '
+    'handed to djs_maskinterp, good-pixel test and destination of the mean assignment -- and the argument checks and the whole '
+    '(ndim, xval, axis) dispatch table of djs_maskinterp with the loops and index pattern of every leaf); fail-closed, '
+    '`recognised` recorded per generated file',
     'the hand-written remainder of C17/Model.v (fold / scatter plumbing, numpy.interp as `interp`, smooth as `smooth_model`, '
     'medfilt / medfilt2d as zero-padded window medians, numpy negative-index wrap) -- tied to the code by the correspondence run',
     'harness glue: scalar sigma / missing inmask / missing outmask expanded to per-point values; n-D reject arrays flattened '
@@ -32,12 +35,21 @@ ASSUMPTIONS = [
     'OUTSIDE the property and are neither generated nor modelled; maxdev-only calls (no sigma, no invvar) ARE inside and '
     'are generated (the estimated sigma is computed by the routine but never used); lower, upper >= 0, maxdev > 0, sigma >= 0, invvar >= 0; maxrej/groupdim/groupsize/groupbadpix '
     'not used; grow > 0 only for 1-D data (the routine indexes axis 0 only)',
-    'djs_maskinterp: xval distinct within every line; pydl numbers axes the IDL way (axis 0 = last numpy axis)',
-    "aesthetics: inverse variances >= 0; method 'mean' with at least one good pixel; method 'damp' is not in the property",
+    'djs_maskinterp: xval distinct within every line; pydl numbers axes the IDL way (axis 0 = last numpy axis); a mask entry is '
+    'bad iff it is != 0 (harness glue `is_bad`; NaN and the infinities are != 0, -0.0 is == 0) for every storage type generated: '
+    'bool, int8..int64, uint8..uint64, float16/32/64, with negative, sign-bit, byte-boundary and tiny values; the whole-call '
+    'specification refuses (ValueError) a mask / xval of another shape, a missing / negative / too large axis for 2-D and 3-D '
+    'arrays and arrays of more than 3 dimensions; a non-integer axis is not generated',
+    "aesthetics: inverse variances >= 0 (decision of the main session: a NEGATIVE inverse variance is outside the generated domain; "
+    "there method 'mean' overwrites the pixel although its inverse variance is not zero -- C17_aesthetics_support_mean_refuted is "
+    "the witness, C17_aesthetics_support_exact says it is the only exception); a spectrum without any good pixel IS inside (every "
+    "method returns it unchanged); method 'damp' is not in the property",
     'djs_median(boundary=reflect): S is total -- width 1 returns the input, even widths and arrays/images with fewer than '
     'ceil(width/2) samples per axis (but more than one sample) must raise ValueError, everything else is the reflected-window '
     'median; 2-D images with a single row or column shorter than the padding (numpy broadcasts them) are not generated',
-    'skymask: a mask pixel is flagged when its stored integer value (two\'s complement) shares a bit with a flag value',
+    'skymask: a mask pixel is flagged when its stored integer value (two\'s complement) shares a bit with a flag value; the '
+    'dilation width is swept: every ngrow of 0..120 in the quick tier (0..300 three times in the thorough tier) plus a few larger '
+    'ones, rows shorter than ngrow, rows that only reach the edge branches of smooth() and rows longer than the window',
     'caller-owned ndarray arguments must be bit-identical after every call (checked for every call, violation otherwise); a result '
     'that shares memory with an UNMODIFIED argument (djs_maskinterp1 / aesthetics / djs_median return their input when there is '
     'nothing to do) is counted in coverage.argument_checks and not reported; histories of calls on the same arrays are compared '
@@ -275,6 +287,55 @@ def gen_mask_line(rng, L):
     return m
 
 
+# "mask != 0 means bad" is the specification whatever the storage type and the sign of the entries: every
+# numpy dtype a mask can reasonably have, with the values that distinguish `!= 0` from `> 0`, `max() == 0`,
+# a truncating cast, a bit test or truthiness of a particular width
+MASK_DTYPES = ['bool', 'i1', 'i2', 'i4', 'i8', 'u1', 'u2', 'u4', 'u8', 'f2', 'f4', 'f8']
+
+
+def mask_palette(dt):
+    """(non-zero values, zero values) representable in dtype dt"""
+    if dt == 'bool':
+        return [1], [0]
+    if dt[0] in 'iu':
+        w = 8 * int(dt[1])
+        if dt[0] == 'u':
+            vals = [1, 2, 1 << (w - 1), (1 << w) - 1] + [1 << b for b in (8, 16, 32) if b < w]
+            return vals, [0]
+        vals = [1, -1, -2, -(1 << (w - 1)), (1 << (w - 1)) - 1] + [s_ << b for b in (8, 16, 32) if b < w - 1 for s_ in (1, -1)]
+        return vals, [0]
+    tiny = {'f2': 2.0 ** -14, 'f4': 2.0 ** -100, 'f8': 2.0 ** -1000}[dt]
+    return [1.0, -1.0, 0.5, -0.25, tiny, -tiny, 'nan', 'inf', '-inf'], [0.0, -0.0]
+
+
+def is_bad(v):
+    """the specification of a mask entry: bad iff it is not equal to zero (NaN and the infinities are not)"""
+    return True if isinstance(v, str) else v != 0
+
+
+def remap_masks(rng, masks, dt):
+    """masks: lists of small non-negative flags (0 = good).  Returns the same masks with every entry replaced by a
+    value of dtype dt of the same class (zero / non-zero), in one of four styles"""
+    nz, zs = mask_palette(dt)
+    neg = [v for v in nz if not isinstance(v, str) and v < 0]
+    style = rng.choice(['asis', 'negative', 'mixed', 'mixed'])
+    if style == 'negative' and not neg:
+        style = 'mixed'
+    if style == 'asis' and dt != 'bool' and dt != 'i1' and dt != 'u1':
+        return [list(m) for m in masks], style
+    out = []
+    for m in masks:
+        if style == 'negative':
+            one = rng.choice(neg)
+            pick = (lambda: one) if rng.random() < 0.5 else (lambda: rng.choice(neg))
+        elif style == 'asis':
+            pick = lambda: 1                                                   # noqa: E731
+        else:
+            pick = lambda: rng.choice(nz)                                      # noqa: E731
+        out.append([pick() if v != 0 else rng.choice(zs) for v in m])
+    return out, style
+
+
 def gen_interp(rng, ctx, k):
     nd = rng.choice([1, 1, 2, 2, 3])
     if nd == 1:
@@ -300,8 +361,14 @@ def gen_interp(rng, ctx, k):
         if rng.random() < 0.3:
             pool = sorted(pool)
         xval = [v / 8.0 for v in pool]
+    dt = rng.choice(MASK_DTYPES)
+    # the remapping is done line by line so that a whole line can hold only zeros and negative values
+    lm, style = remap_masks(rng, [[mask[p] for p in ln] for ln in lines], dt)
+    for ln, vals in zip(lines, lm):
+        for p, v in zip(ln, vals):
+            mask[p] = v
     c = {'f': 'interp', 'shape': shape, 'y': y, 'mask': mask, 'xval': xval, 'const': rng.random() < 0.5,
-         'maskdtype': rng.choice(['i4', 'i8', 'bool', 'i2']), '_lines': lines}
+         'maskdtype': dt, '_lines': lines, '_maskstyle': style}
     if nd == 1 and rng.random() < 0.4:
         c['direct1'] = True
     if nd > 1 or rng.random() < 0.5:
@@ -313,20 +380,72 @@ def natlist(l):
     return '[' + '; '.join('%d' % v for v in l) + ']%nat'
 
 
+def call_term(c, r):
+    """the whole call: shapes of the three arrays, the axis as given (None = not given), outcome class"""
+    xv = 'None' if c['xval'] is None else '(Some %s)' % qlist(c['xval'])
+    xs = 'None' if c['xval'] is None else '(Some %s)' % natlist(c.get('xshape') or c['shape'])
+    ax = 'None' if c.get('axis') is None else '(Some %s)' % zl(c['axis'])
+    if 'ok' in r:
+        e = '(NDOk %s)' % qlist(r['ok'])
+    else:
+        e = 'NDErr' if r.get('err') == 'ValueError' else 'NDOther'
+    return '(CInterpCall %s %s %s %s %s %s %s %s)' % (qlist(c['y']), blist([is_bad(m) for m in c['mask']]), xv, natlist(c['shape']),
+                                                     natlist(c.get('mshape') or c['shape']), xs, ax, e)
+
+
+def gen_interp_call(rng, ctx, k):
+    """calls that exercise the argument checks and the dispatch of djs_maskinterp: mask / xval of another shape,
+    axis missing / negative / too large, 4-D arrays, and valid calls as controls"""
+    while True:
+        c = gen_interp(rng, ctx, k)
+        if 'direct1' not in c:
+            break
+    nd = len(c['shape'])
+    n = len(c['y'])
+    kind = rng.choice(['mshape', 'xshape', 'axis_none', 'axis_neg', 'axis_big', 'ndim4', 'valid', 'valid'])
+    if kind == 'xshape' and c['xval'] is None:
+        kind = 'mshape'
+    if kind in ('mshape', 'xshape'):
+        alt = rng.choice([[n], list(reversed(c['shape'])), c['shape'] + [1], [1] + c['shape'], [n + 1]])
+        if alt == c['shape']:
+            alt = c['shape'] + [1]
+        key, vals = ('mshape', 'mask') if kind == 'mshape' else ('xshape', 'xval')
+        c[key] = alt
+        if alt == [n + 1]:
+            c[vals] = c[vals] + [c[vals][0] if kind == 'mshape' else 999.0]
+    elif kind == 'axis_none':
+        c.pop('axis', None)
+    elif kind == 'axis_neg':
+        c['axis'] = rng.choice([-1, -1, -2, -nd])
+    elif kind == 'axis_big':
+        c['axis'] = nd + rng.choice([0, 0, 1, 5])
+    elif kind == 'ndim4':
+        shape = [rng.randint(1, 2) for _ in range(4)]
+        n = shape[0] * shape[1] * shape[2] * shape[3]
+        c.update({'shape': shape, 'y': [C.dyadic(rng, -16, 16, 6) for _ in range(n)], 'mask': [rng.choice([0, 0, 1]) for _ in range(n)],
+                  'maskdtype': 'i4', 'xval': None, 'axis': rng.randrange(4), '_lines': []})
+    c['_call'] = kind
+    return c
+
+
 def interp_terms(c, r):
+    if '_call' in c:
+        return [(0, call_term(c, r))]
     if len(c['shape']) > 1:
         # n-D: one case for the whole array (flat, C order) with the index lists of its lines
         xv = 'None' if c['xval'] is None else '(Some %s)' % qlist(c['xval'])
         e = '(QOk %s)' % qlist(r['ok']) if 'ok' in r else 'QErr'
         # the lines are derived inside Coq from (shape, axis); numpy's own cutting (moveaxis) goes along for comparison
         npl = r.get('np_lines') or c['_lines']
-        return [(0, '(CInterpND %s %s %s %s %d%%nat %s %s)' % (qlist(c['y']), blist([m != 0 for m in c['mask']]), xv,
+        return [(0, '(CInterpND %s %s %s %s %d%%nat %s %s)' % (qlist(c['y']), blist([is_bad(m) for m in c['mask']]), xv,
                                                               natlist(c['shape']), c['axis'],
-                                                              C.coq_list([natlist(ln) for ln in npl]), e))]
+                                                              C.coq_list([natlist(ln) for ln in npl]), e)),
+                # the same call through the GENERATED argument checks and dispatch table
+                (1, call_term(c, r))]
     out = []
     for li, ln in enumerate(c['_lines']):
         ys = [c['y'][p] for p in ln]
-        ms = [c['mask'][p] != 0 for p in ln]
+        ms = [is_bad(c['mask'][p]) for p in ln]
         xv = 'None' if c['xval'] is None else '(Some %s)' % qlist([c['xval'][p] for p in ln])
         e = '(QOk %s)' % qlist([r['ok'][p] for p in ln]) if 'ok' in r else 'QErr'
         out.append((li, '(CInterp %s %s %s %s)' % (qlist(ys), blist(ms), xv, e)))
@@ -341,8 +460,8 @@ def gen_aesth(rng, ctx, k):
     t = rng.random()
     if t < 0.1:
         iv = [C.dyadic(rng, 0.125, 4, 3) for _ in range(n)]
-    elif t < 0.2 and meth != 'mean':
-        iv = [0.0] * n
+    elif t < 0.2:
+        iv = [0.0] * n                      # no good pixel at all: every method returns the spectrum as it is
     else:
         dens = rng.choice([0.2, 0.5, 0.8])
         iv = [0.0 if rng.random() < dens else C.dyadic(rng, 0.125, 4, 3) for _ in range(n)]
@@ -350,8 +469,6 @@ def gen_aesth(rng, ctx, k):
             iv[0] = 0.0
         if rng.random() < 0.4:
             iv[-1] = 0.0
-        if meth == 'mean' and not any(iv):
-            iv[rng.randrange(n)] = 1.5
     return {'f': 'aesth', 'method': meth, 'flux': [C.dyadic(rng, -16, 16, 6) for _ in range(n)], 'invvar': iv}
 
 
@@ -434,10 +551,67 @@ def gen_sky(rng, ctx, k, bits):
         mask.extend(pix(f) for f in row)
     iv = [0.0 if rng.random() < 0.1 else C.dyadic(rng, 0.125, 8, 4) for _ in range(nrows * npix)]
     c = {'f': 'sky', 'shape': [nrows, npix], 'dtype': dtype, 'invvar': iv, 'mask': mask,
-         'ngrow': rng.choice([0, 1, 2, 2, 3, 4, None]), '_bits': list(bits)}
+         'ngrow': rng.choice([0, 1, 2, 2, 3, 4, None, rng.randint(5, 130)]), '_bits': list(bits)}
     if rng.random() < 0.05:
         c['mask'] = None
     return c
+
+
+def gen_sky_sweep(rng, ngrow, bits, dtype=None):
+    """the dilation width is a free parameter of the property ("within ngrow pixels"): one call per ngrow with rows
+    built to expose any artefact of routing the integer decision through floating point (smooth() of the scaled
+    mask, then truncation and `> 0`): an isolated flagged pixel, flagged pixels at the row ends (the edge branches of
+    smooth() add (istart-i)*signal[0]), clusters of 2..5 flagged pixels (sums k*width), a clean row between
+    flagged rows, rows shorter than ngrow, rows just longer than the window"""
+    dtype = dtype or rng.choice(['int32', 'int32', 'int32', 'int16', 'int64', 'uint64'])
+    w, signed = DT[dtype]
+    t = rng.random()
+    if t < 0.3:
+        npix = rng.randint(1, min(ngrow + 1, 60))              # ngrow >= row length
+    elif t < (0.8 if ngrow <= 60 else 0.9) or ngrow > 150:
+        npix = rng.randint(ngrow + 2, min(2 * ngrow + 3, ngrow + 40))    # only the edge branches of smooth()
+    else:
+        npix = 2 * ngrow + 1 + rng.randint(1, 12)              # the central branch as well
+    fl = [1 << b for b in bits if b < w] or [0]
+
+    def flagval():
+        v = rng.choice(fl + [fl[0] | fl[-1]])
+        if rng.random() < 0.3:
+            v |= 1 << rng.choice([b for b in range(w - 1) if b not in bits])
+        if signed and v >= (1 << (w - 1)):
+            v -= 1 << w
+        return v
+    clean = rng.choice([0, 0, 1 << [b for b in range(w - 1) if b not in bits][0]])
+    kinds = ['isolated', 'ends', 'cluster', 'clean', rng.choice(['isolated', 'ends', 'cluster', 'two'])]
+    rng.shuffle(kinds)
+    kinds = kinds[:rng.randint(3, 4)]
+    mask = []
+    for kind in kinds:
+        row = [clean] * npix
+        if kind == 'isolated':
+            row[rng.randrange(npix)] = flagval()
+        elif kind == 'ends':
+            e = rng.choice(['l', 'r', 'lr'])
+            if 'l' in e:
+                row[0] = flagval()
+            if 'r' in e:
+                row[-1] = flagval()
+            if rng.random() < 0.4:
+                row[rng.randrange(npix)] = flagval()
+        elif kind == 'cluster':
+            k_, p0 = rng.randint(2, 5), rng.randrange(npix)
+            step = rng.choice([1, 1, 2, max(1, ngrow // 2)])
+            for j in range(k_):
+                if p0 + j * step < npix:
+                    row[p0 + j * step] = flagval()
+        elif kind == 'two':
+            for _ in range(2):
+                row[rng.randrange(npix)] = flagval()
+        mask.extend(row)
+    nrows = len(kinds)
+    iv = [C.dyadic(rng, 0.125, 8, 3) for _ in range(nrows * npix)]
+    return {'f': 'sky', 'shape': [nrows, npix], 'dtype': dtype, 'invvar': iv, 'mask': mask, 'ngrow': ngrow,
+            '_bits': list(bits), '_sweep': kinds}
 
 
 def sky_terms(c, r, flags):
@@ -468,8 +642,6 @@ def decorate(rng, c):
     if f == 'reject' and f32 and c['_mode'] != 'invvar':
         c['dtypes'] = {'data': 'f4', 'model': 'f4', 'sigma': 'f4'}
     elif f == 'interp':
-        if rng.random() < 0.15:
-            c['maskdtype'] = 'u8'
         if f32 and len(c['shape']) == 1:
             c['dtypes'] = {'y': 'f4', 'xval': 'f4'}
     elif f == 'aesth' and f32:
@@ -554,7 +726,7 @@ def gen_history(rng, ctx, k, bits):
             if len(c['shape']) == 1:
                 break
         n = c['shape'][0]
-        masks = {'mask': c['mask'], 'mask2': gen_mask_line(rng, n)}
+        masks = {'mask': c['mask'], 'mask2': remap_masks(rng, [gen_mask_line(rng, n)], c['maskdtype'])[0][0]}
         arrays['y'] = shared(c['y'], [n], 'd', rng)
         for nm, m in masks.items():
             arrays[nm] = shared(m, [n], c['maskdtype'], rng)
@@ -579,7 +751,7 @@ def gen_history(rng, ctx, k, bits):
         arrays['mask'] = shared(c['mask'], c['shape'], c['dtype'], rng)
         for j in range(rng.randint(2, 3)):
             st = dict(c)
-            st['ngrow'] = rng.choice([0, 1, 2, 3, None])
+            st['ngrow'] = rng.choice([0, 1, 2, 3, None, rng.randint(4, 130)])
             rf = public(st)
             rf.update({'invvar': {'ref': 'invvar'}, 'mask': {'ref': 'mask'}})
             refs.append(rf)
@@ -612,13 +784,13 @@ def signature(c, r, verdict):
         g = c['grow']
         cls = 'grow=0' if g == 0 else ('grow=1' if g == 1 else 'grow>=2')
     elif f == 'interp':
-        cls = 'xval' if c['xval'] is not None else 'index'
+        cls = ('call:' if '_call' in c else '') + ('xval' if c['xval'] is not None else 'index')
     elif f == 'aesth':
         cls = c['method']
     elif f == 'median':
         cls = '%dd' % len(c['shape'])
     else:
-        cls = 'signed' if DT[c['dtype']][1] else 'unsigned'
+        cls = ('signed' if DT[c['dtype']][1] else 'unsigned') + (':ngrow>=5' if (c.get('ngrow') or 0) >= 5 else '')
         f = 'skymask'
     hist = ':after-other-calls-on-the-same-arrays' if c.get('_hist', (0, 0))[1] > 0 else ''
     return 'C17:%s:%s:impl=%s:%s%s' % (f, cls, impl_class(r), what, hist)
@@ -643,6 +815,8 @@ def correspond(ctx, proof_ok=True):
         calls.append((0, decorate(rng, gen_reject(rng, ctx, k))))
     for k in range(ctx.n(600, 8000)):
         calls.append((0, decorate(rng, gen_interp(rng, ctx, k))))
+    for k in range(ctx.n(200, 3000)):
+        calls.append((0, decorate(rng, gen_interp_call(rng, ctx, k))))
     for k in range(ctx.n(250, 4000)):
         calls.append((0, decorate(rng, gen_aesth(rng, ctx, k))))
     for k in range(ctx.n(300, 5000)):
@@ -650,6 +824,14 @@ def correspond(ctx, proof_ok=True):
     for k in range(ctx.n(450, 8000)):
         bi = 0 if k % 2 == 0 else (1 if k % 4 == 1 else 2)
         calls.append((bi, decorate(rng, gen_sky(rng, ctx, k, BITSETS[bi]))))
+    # the dilation width swept over its range: every ngrow of 0..120 (thorough: 0..300, three times), some beyond
+    sweep = list(range(0, 121)) + [rng.randint(121, 400) for _ in range(6)]
+    if ctx.thorough:
+        sweep = list(range(0, 301)) * 3 + [rng.randint(301, 1200) for _ in range(30)]
+    n_plain = len(calls)
+    for k, g in enumerate(sweep):
+        bi = 0 if k % 3 else rng.choice([1, 2])
+        calls.append((bi, decorate(rng, gen_sky_sweep(rng, g, BITSETS[bi]))))
     # histories: several calls in one process on the same array objects; every step is an ordinary entry of
     # `calls` (with the ORIGINAL values) that is executed as part of its history
     histories = []                               # {'arrays', 'steps' (ref form), 'members' (indices into calls)}
@@ -691,6 +873,12 @@ def correspond(ctx, proof_ok=True):
     for k in range(len(results)):
         if results[k] is None:
             results[k] = {'err': 'NotRun'}
+        # a NaN / infinity in a returned array is an outcome class of its own (never expected: all inputs are finite);
+        # the case then carries QErr / NDOther, so that M and S both disagree and the input is reported
+        ok = results[k].get('ok')
+        if isinstance(ok, list) and any(isinstance(v, float) and (v != v or v in (float('inf'), float('-inf'))) for v in ok):
+            results[k] = {'err': 'NonFinite', 'msg': 'returned array holds NaN or infinity: %s' % str(ok)[:160],
+                          'mutated': results[k].get('mutated', []), 'aliased': results[k].get('aliased', [])}
     # a djs_reject iteration takes the mask returned by the previous step of its history as its outmask
     for h in histories:
         for k in h['members']:
@@ -707,7 +895,7 @@ def correspond(ctx, proof_ok=True):
     ctx.coverage['flag_values'] = {str(k): v for k, v in flags_of.items()}
     # the harness's cutting of n-D arrays into lines must be numpy's own (moveaxis) cutting
     for (bi, c), r in zip(calls, results):
-        if c['f'] == 'interp' and 'np_lines' in r and sorted(map(tuple, r['np_lines'])) != sorted(map(tuple, c['_lines'])):
+        if c['f'] == 'interp' and '_call' not in c and 'np_lines' in r and sorted(map(tuple, r['np_lines'])) != sorted(map(tuple, c['_lines'])):
             raise RuntimeError('harness lines_of disagrees with numpy.moveaxis for shape %s' % c['shape'])
     for bits, fl in flags_of.items():
         if fl != [1 << bits[0], 1 << bits[1]]:
@@ -729,8 +917,17 @@ def correspond(ctx, proof_ok=True):
             terms.append((ci, 0, median_term(c, r)))
         else:
             terms.extend((ci, j, t) for j, t in sky_terms(c, r, flags_of[tuple(c['_bits'])]))
+    # rows with a wide dilation are expensive for S (exhaustive search): they get small shards of their own
+    heavy = [k for k, (ci, _, _) in enumerate(terms) if calls[ci][1]['f'] == 'sky' and (calls[ci][1].get('ngrow') or 0) > 8]
+    hs = set(heavy)
+    light = [k for k in range(len(terms)) if k not in hs]
     cc = C.CoqCases(ctx.work, HEADER, 'run_cases', shard=ctx.n(120, 250))
-    verdicts = cc.run([t for _, _, t in terms])
+    verdicts = [None] * len(terms)
+    for k, v in zip(light, cc.run([terms[k][2] for k in light])):
+        verdicts[k] = v
+    cc.shard = ctx.n(10, 25)
+    for k, v in zip(heavy, cc.run([terms[k][2] for k in heavy], tag='wide')):
+        verdicts[k] = v
     ctx.coverage['coq_eval_s'] = round(cc.coq_seconds, 1)
 
     # bookkeeping
@@ -758,11 +955,31 @@ def correspond(ctx, proof_ok=True):
                    'ndim>1': sum(1 for c, _ in rej if len(c['shape']) > 1)},
         'interp': {'ndim': {str(d): sum(1 for c, _ in itp if len(c['shape']) == d) for d in (1, 2, 3)},
                    'xval': sum(1 for c, _ in itp if c['xval'] is not None),
-                   'lines': sum(len(c['_lines']) for c, _ in itp)},
+                   'lines': sum(len(c['_lines']) for c, _ in itp),
+                   'mask_dtype': {d: sum(1 for c, _ in itp if c['maskdtype'] == d) for d in MASK_DTYPES},
+                   'mask_style': {st: sum(1 for c, _ in itp if c.get('_maskstyle') == st) for st in ('asis', 'negative', 'mixed')},
+                   'lines_with_only_zero_and_negative_entries': sum(
+                       1 for c, _ in itp for ln in c['_lines']
+                       if any(is_bad(c['mask'][p]) for p in ln if p < len(c['mask']))
+                       and all(isinstance(c['mask'][p], str) or c['mask'][p] <= 0 for p in ln if p < len(c['mask']))),
+                   'call_family': {kd: sum(1 for c, _ in itp if c.get('_call') == kd)
+                                   for kd in ('mshape', 'xshape', 'axis_none', 'axis_neg', 'axis_big', 'ndim4', 'valid')},
+                   'call_outcomes': {o: sum(1 for c, r in itp if '_call' in c and impl_class(r) == o)
+                                     for o in set(impl_class(r) for c, r in itp if '_call' in c)}},
+        'aesthetics': {'all_bad': sum(1 for (_, c), r in zip(calls, results) if c['f'] == 'aesth' and not any(c['invvar'])),
+                       'by_method': {m: sum(1 for (_, c) in calls if c['f'] == 'aesth' and c['method'] == m)
+                                     for m in ('traditional', 'noconst', 'mean', 'nothing')}},
         'median': {'widths': {str(w): sum(1 for c, _ in med if c['width'] == w) for w in range(1, 10)},
                    '2d': sum(1 for c, _ in med if len(c['shape']) == 2)},
         'skymask': {'dtype': {d: sum(1 for c, _ in sky if c['dtype'] == d) for d in DT},
                     'ngrow': {str(g): sum(1 for c, _ in sky if c['ngrow'] == g) for g in (0, 1, 2, 3, 4, None)},
+                    'ngrow_5_to_120': sum(1 for c, _ in sky if (c['ngrow'] or 0) in range(5, 121)),
+                    'ngrow_above_120': sum(1 for c, _ in sky if (c['ngrow'] or 0) > 120),
+                    'distinct_ngrow': len(set(c['ngrow'] for c, _ in sky)),
+                    'ngrow>=row_length': sum(1 for c, _ in sky if (c['ngrow'] or 0) >= c['shape'][1]),
+                    'sweep_calls': sum(1 for c, _ in sky if '_sweep' in c),
+                    'sweep_row_kinds': {kd: sum(c['_sweep'].count(kd) for c, _ in sky if '_sweep' in c)
+                                        for kd in ('isolated', 'ends', 'cluster', 'two', 'clean')},
                     'bit_placements': [list(b) for b in BITSETS]},
         'model_disagreements': sum(1 for b in bad if b[3] & 1),
         'spec_violations': sum(1 for b in bad if b[3] & 2),
